@@ -23,10 +23,14 @@ TRUSTED = [
     "compared with the expected skeleton) and by differential execution (this file)",
     "pydantic.v1 plumbing (field order, error collection, Optional/None handling, exclude_unset in dict()), numpy asarray/reshape/"
     "shape assignment and int(size**0.5) are modelled, not verified",
-    "array elements are integer-valued floats in the generators; the element type plays no role in any validator",
+    "array elements are integer-valued in the generators (supplied as float64 / float32 / int32 / int64 / big-endian float64 and "
+    "int32, C / Fortran / strided memory, or nested lists); the model sees the logical element order only",
+    "the basis of a wavefunction is modelled by its function count; that the basis itself is kept unchanged (name, atom map, "
+    "shells), whether it arrives as a BasisSet object or as plain data, is judged by the oracle only",
 ]
 ASSUMPTIONS = [
-    "wavefunction pointer values are str or None, `restricted` is a bool, arrays are C-ordered ndarrays or (nested) lists",
+    "wavefunction pointer values are str or None, `restricted` is a bool, arrays are ndarrays (any layout, real numeric dtype) or "
+    "(nested) lists",
     "int(size**0.5) equals the integer square root for the array sizes in scope (exact for sizes < 2**52)",
 ]
 
@@ -1426,10 +1430,14 @@ def correspond(ctx):
     corr = Corr()
     corr.rule = ("full product of 6 wavefunction-protocol settings (5 + default) x 3 stdout x 4 native-file x 4 drivers with random "
                  "wavefunction payloads/pointers and flat/shaped/list/wrong-sized arrays; WavefunctionProperties and "
-                 "AtomicResultProperties directly; trajectories of length 0..7 under every policy; random basis sets (fused and "
-                 "general contractions, nbf right/wrong/absent); a history stream (runs of calls sharing protocol / driver / field "
-                 "names / natom / center key / policy but not the payload, in one interpreter, failing histories minimised in fresh "
-                 "interpreters). Non-trivial = the implementation accepted the input (an object "
+                 "AtomicResultProperties directly; arrays as float64/float32/int32/int64/big-endian, C/Fortran/strided or nested lists; the "
+                 "wavefunction basis as a BasisSet object or as plain data, from a family with distinct names and from one sharing "
+                 "name, center key and atom_map across function counts and shell layouts; trajectories of length 0..7 under every "
+                 "policy; random basis sets (fused and general contractions, nbf right/wrong/absent); a history stream (runs of "
+                 "calls sharing protocol / driver / field names / natom / center key / basis name+atom_map / policy but not the "
+                 "payload, in one interpreter; every step also checks that the caller's arrays still hold their elements and that "
+                 "the results of the preceding steps still read as when they were built; failing histories minimised in fresh "
+                 "interpreters, fewer and smaller steps). Non-trivial = the implementation accepted the input (an object "
                  "was built and re-validated); distinct = distinct inputs")
     terms, bterms, meta, bmeta = [], [], [], []
     ntag = {}
@@ -1627,7 +1635,10 @@ LEVEL_TEXT = (
     "unknown dimension), C20_shapes_flat_shaped_idempotent, C20_return_result_by_driver, C20_property_arrays + "
     "C20_properties_whole_object (nat x 3, 3nat x 3nat, 3, 3x3; whole object = field-wise), C20_wfn_arrays_shaped_or_rejected (every "
     "array field of the generated WavefunctionProperties table: accepted => supplied elements in the rule's shape for the object's own "
-    "nbf, e.g. nbf x nbf iff size = nbf^2; misfit => validation error), C20_wfn_validation_keeps_payload, C20_declared_shapes_enforced. "
+    "nbf, e.g. nbf x nbf iff size = nbf^2; misfit => validation error), C20_wfn_validation_keeps_payload, C20_declared_shapes_enforced, "
+    "C20_wfn_accepted_iff (WavefunctionProperties accepted IFF no unknown key, basis/restricted well-typed, every ruled array fits the "
+    "rule for the object's own nbf, every pointer names an earlier-declared field present and not None), C20_wfn_rejects_bad_field (one "
+    "bad field => validation error). "
     "Basis sets: C20_nbf_spec, C20_nbf_count_formulas, C20_basis_accepted_iff (accepted iff structurally valid, nbf absent or = count). "
     "Re-validation is the identity: C20_wfn_protocol_idempotent, C20_wfn_validation_idempotent, C20_wfn_stage_idempotent, "
     "C20_trajectory_idempotent_total (no IndexError), C20_basis_revalidation, C20_atomic_revalidation (whole AtomicResult). Two "
@@ -1636,18 +1647,22 @@ LEVEL_TEXT = (
     "policy input). The models are tied to the code by the fail-closed translator and by exact differential execution over the full "
     "product of protocols x drivers x payload subsets / pointers x flat/shaped/list/wrong-sized arrays, WavefunctionProperties / "
     "AtomicResultProperties directly, trajectories of length 0..7 under every policy, random basis sets (fused/general contractions, "
-    "nbf right/wrong/absent), with the property oracle (hand-written documentation mirror) and Model(**obj.dict()) re-validation "
-    "evaluated on every accepted object.")
+    "nbf right/wrong/absent), arrays in seven element types / memory layouts, the basis as object or plain data with shared or "
+    "distinct names, with the property oracle (hand-written documentation mirror) and Model(**obj.dict()) re-validation "
+    "evaluated on every accepted object, and call histories in one interpreter (no answer depends on earlier calls, the caller's "
+    "arrays and earlier results are left alone).")
 LEVEL_NOTE = (
     "Clause map: (1) shapes -> C20_shapes_accepted_iff_size_fits, C20_shapes_flat_shaped_idempotent, C20_property_arrays, "
-    "C20_properties_whole_object, C20_wfn_arrays_shaped_or_rejected, C20_return_result_by_driver, C20_atomic_result_is_its_stages [full; "
+    "C20_properties_whole_object, C20_wfn_arrays_shaped_or_rejected, C20_wfn_accepted_iff, C20_wfn_rejects_bad_field, "
+    "C20_return_result_by_driver, C20_atomic_result_is_its_stages [full; "
     "localized_fock_a/_b refuted = known finding]; (2) nbf -> C20_nbf_spec, C20_nbf_count_formulas, C20_basis_accepted_iff [full, "
     "distinct center keys]; (3) retention -> C20_wfn_kept_exactly, C20_atomic_wfn_kept_exactly, C20_atomic_other_fields, "
     "C20_stdout_native_protocols, C20_trajectory_spec, C20_keep_lists_are_documented [full]; (4) kept unchanged -> "
     "C20_wfn_validation_keeps_payload + the payload conjuncts of (3) [full]; (5) re-validation -> the idempotence theorems, "
-    "C20_atomic_revalidation [full outside the refuted native_files-default case = known finding]. Only correspondence/oracle: the "
-    "acceptance side of WavefunctionProperties as an iff, memory layouts (Fortran/strided/reversed return_result arrays), pydantic "
-    "plumbing, OptimizationResult fields other than `trajectory`. "
+    "C20_atomic_revalidation [full outside the refuted native_files-default case = known finding]. Only correspondence/oracle: "
+    "memory layouts and element types of supplied arrays, the basis kept unchanged (object or plain data), independence from the "
+    "call history (no shared state, caller's arrays and earlier results untouched), pydantic plumbing, OptimizationResult fields "
+    "other than `trajectory`. "
     "Trusted: Coq kernel + vm_compute; the translator harness/translate/keeplists.py (refuses on any statement of the validators it "
     "neither translates nor recognises); the hand-written models; pydantic.v1 plumbing, numpy asarray/reshape/shape assignment, "
     "int(size**0.5) (modelled as Z.sqrt) are modelled, not verified; the harness. Out of the model: dict-valued return_result, non-str "
